@@ -26,7 +26,7 @@ RULE = ("for a harness BatchBase subclass (own active-batch pointer switched in 
         "Histories are merged only when (R5 state of every batch; and of the real objects: each batch's "
         "is_computed/_value/_error, len(items), every item's is_computed/_value/_error and notification count, flush-body "
         "run count, announcement count, which batch the active pointer designates) coincide; every executed history is "
-        "followed by a probe tail per addressable batch (queries, every item's value/error or flush() if empty, "
+        "followed by a probe tail on the two most recent addressable batches (queries, every item's value/error or flush() if empty, "
         "cancel, batch error/value, direct add, flush, queries) on the same live objects. Every operation is compared with the "
         "reference batch machine R5. evals = histories executed (distinct state x operation edges + roots); transitions = "
         "operations applied to real objects (replayed prefix + new operation + probe tail); non-trivial = distinct states "
@@ -51,6 +51,11 @@ def jobs(tier, seed):
     for b in BODIES:
         yield {"target": "harness", "body": b, "depth": DEPTH[tier], "gens": GENS[tier]}
     yield {"target": "debug", "body": "all", "depth": DEPTH[tier], "gens": GENS[tier]}
+
+
+def workers_per_build(tier, nper):
+    # 12 equally heavy jobs per build: 12 workers per build finish in one round (2 rounds with the default 8)
+    return max(nper, len(BODIES) + 1)
 
 
 def worker_init(env):
@@ -397,7 +402,9 @@ class World(object):
 
     def tail(self):
         t = []
-        for gi in range(min(len(self.m.gens), self.G)):
+        hi = min(len(self.m.gens), self.G)
+        # the two most recent addressable batches are probed (older ones are finished and were probed when they were recent)
+        for gi in range(max(0, hi - 2), hi):
             n = len(self.m.gens[gi].items)
             # a pending batch holding items is flushed through its first item, an empty one through flush()
             t += [("query", gi)]
